@@ -13,8 +13,8 @@ EXTENDS Components, Json
 
 CONSTANTS Family, MaxSys
 
-VARIABLES ph, input, data, env, todo, err
-vars == <<ph, input, data, env, todo, err>>
+VARIABLES ph, input, data, needs, env, todo, err
+vars == <<ph, input, data, needs, env, todo, err>>
 
 U(cr, srv, v) == [kind |-> "USED", cr |-> cr, srv |-> srv, src |-> "-", v |-> v]
 P(src, v) == [kind |-> "PROD", cr |-> "-", srv |-> "-", src |-> src, v |-> v]
@@ -51,7 +51,9 @@ ProfilesC06 == <<
   <<U(EL, "ILU", <<3, 3>>)>>,                                                                      \* no auxiliaries
   <<U(G, "CAL", <<2, 2>>), U(G, "ACS", <<2, 2>>), U(G, "REF", <<2, 2>>), O("CAL", <<1, 1>>), O("ACS", <<1, 1>>), O("REF", <<-1, -1>>), X(<<3, 0>>)>>, \* three services
   <<U(G, "ACS", <<5, 5>>), X(<<1, 1>>)>>,                                                          \* auxiliaries are the only electricity
-  <<U(E, "ACS", <<2, 2>>), U(EL, "ACS", <<1, 1>>), X(<<1, 1>>)>> >>                                \* heat pump, one service
+  <<U(E, "ACS", <<2, 2>>), U(EL, "ACS", <<1, 1>>), X(<<1, 1>>)>>,                                  \* heat pump, one service
+  <<U(G, "CAL", <<4, 4>>), U(G, "ACS", <<2, 2>>), O("CAL", <<2, 1>>), O("CAL", <<1, 0>>), O("ACS", <<1, 3>>), X(<<2, 2>>)>>, \* output of one service on two lines
+  <<U(G, "COGEN", <<3, 3>>), P("EL_COGEN", <<1, 1>>), X(<<1, 1>>)>> >>                             \* cogenerator: its only consumption is fuel
 
 Profiles == IF Family = "C05" THEN ProfilesC05 ELSE ProfilesC06
 NP == Len(Profiles)
@@ -61,20 +63,35 @@ WithId(p, id) == [k \in 1..Len(p) |-> [p[k] EXCEPT !.kind = p[k].kind] @@ [id |-
 RECURSIVE Assemble(_, _)
 Assemble(ps, ids) == IF ps = <<>> THEN <<>> ELSE WithId(Profiles[Head(ps)], Head(ids)) \o Assemble(Tail(ps), Tail(ids))
 
-Init == ph = "pick" /\ input = <<>> /\ data = <<>> /\ env = {} /\ todo = {} /\ err = FALSE
+Init == ph = "pick" /\ input = <<>> /\ data = <<>> /\ needs = NoNeeds /\ env = {} /\ todo = {} /\ err = FALSE
+
+\* demand lines of the file (C05 family; chosen by a hash of the systems so that the family does not grow):
+\* none, one line, a service on several lines whose running total is negative, zero or positive on the way
+Nd(srv, v) == [kind |-> "NEED", id |-> 0, cr |-> "-", srv |-> srv, src |-> "-", v |-> v, cm |-> ""]
+DemandSets == <<
+  <<>>,
+  <<Nd("ACS", <<3, 3>>)>>,
+  <<Nd("REF", <<-5, -1>>), Nd("REF", <<10, 2>>), Nd("REF", <<1, 1>>)>>,
+  <<Nd("CAL", <<2, 0>>), Nd("ACS", <<1, 1>>), Nd("CAL", <<-2, 0>>), Nd("CAL", <<4, 4>>)>>,
+  <<Nd("ACS", <<0, 0>>), Nd("ACS", <<1, 2>>), Nd("REF", <<-1, -1>>), Nd("REF", <<-2, -3>>)>> >>
+HashOf(ps, ids) == ISumSet(LAMBDA k : 3 * ps[k] + ids[k] + 2, 1..Len(ids))
+DemandOf(ps, ids) == IF Family = "C05" THEN DemandSets[(HashOf(ps, ids) % Len(DemandSets)) + 1] ELSE <<>>
+NeedLines(C) == SelectSeq(C, IsNeed)
+EnergyLines(C) == SelectSeq(C, LAMBDA x : ~IsNeed(x))
 
 Pick ==
   /\ ph = "pick"
   /\ \E ids \in {t \in IdTuples : Len(t) <= MaxSys} : \E ps \in [1..Len(ids) -> 1..NP] :
-       /\ input' = Assemble(ps, ids)
-       /\ data' = ToRat(input')
+       /\ input' = Assemble(ps, ids) \o DemandOf(ps, ids)
+       /\ data' = ToRat(EnergyLines(input'))
+       /\ needs' = ReadNeeds(NoNeeds, NeedLines(input'))
   /\ ph' = "parsed" /\ UNCHANGED <<env, todo, err>>
 
 \* entry of normalize(): the ids of the first loop
 Start ==
   /\ ph = "parsed" /\ ph' = "E"
   /\ env' = EnvIdx(data, E) /\ todo' = CompleteIds(data, E)
-  /\ UNCHANGED <<input, data, err>>
+  /\ UNCHANGED <<input, data, needs, err>>
 
 \* one visit of the completion loop, any remaining id
 CompleteStep(c, next) ==
@@ -88,7 +105,7 @@ CompleteStep(c, next) ==
             /\ data' = CompleteIdOp(data, env, IF c = "E" THEN E ELSE T, id)
             /\ todo' = todo \ {id}
             /\ UNCHANGED <<ph, env>>
-  /\ UNCHANGED <<input, err>>
+  /\ UNCHANGED <<input, needs, err>>
 
 AuxStep ==
   /\ ph = "A"
@@ -97,9 +114,9 @@ AuxStep ==
      ELSE \E id \in todo : \E r \in AuxIdOp(data, id) :
             IF r.ok THEN data' = r.data /\ todo' = todo \ {id} /\ UNCHANGED <<ph, err>>
             ELSE err' = TRUE /\ ph' = "done" /\ UNCHANGED <<data, todo>>
-  /\ UNCHANGED <<input, env>>
+  /\ UNCHANGED <<input, needs, env>>
 
-SortStep == ph = "S" /\ data' = SortById(data) /\ ph' = "done" /\ UNCHANGED <<input, env, todo, err>>
+SortStep == ph = "S" /\ data' = SortById(data) /\ ph' = "done" /\ UNCHANGED <<input, needs, env, todo, err>>
 
 Next == Pick \/ Start \/ CompleteStep("E", "T") \/ CompleteStep("T", "A") \/ AuxStep \/ SortStep
 Spec == Init /\ [][Next]_vars
@@ -119,7 +136,9 @@ Canon(C) ==
   FoldAux(c1, AuxIds(c1))
 
 Done == ph = "done"
-In == ToRat(input)
+In == ToRat(EnergyLines(input))
+\* C05, demand lines: what is stored per service is the step-wise sum of the declared lines of that service
+DemandKept == ph # "pick" => \A sv \in NeedSrv : needs[sv] = DeclaredNeed(NeedLines(input), sv)
 NonAux(C) == SelectSeq(C, LAMBDA x : ~IsAux(x))
 
 \* some system's auxiliaries cannot be assigned: whatever the order, the file is refused
